@@ -64,6 +64,10 @@ import (
 //	                          handleSequenceFlow) starts with an if statement whose condition is the negation of a plain
 //	                          variable that is set to true inside that if (the arriving token takes the first flow that
 //	                          flows), not a comparison of the loop index
+//	src_partition_comes_from_the_library
+//	                          pkg/id/sno.go: no composite literal of a type named GeneratorSnapshot and no assignment to a field
+//	                          named Partition anywhere in the file, and a call of sno.NewGenerator (the engine never picks
+//	                          a partition: a snapshot is either nil or decoded from the caller's bytes)
 //	src_answer_slice_is_fresh gateway_exclusive.go exclusiveGateway.run: every slice that is appended to there is a variable
 //	                          declared inside the case clause in which it is appended to (made anew for every message)
 //	src_wake_is_direct        process_set.go: struct ProcessSet has no map-typed field of channels (no table of listening catch
@@ -94,6 +98,7 @@ type protoFacts struct {
 	SubSharesLocator    bool
 	SubForwardsDirectly bool
 	FirstThatFlows      bool
+	PartitionFromLib    bool
 }
 
 func findMethod(f *ast.File, recv, name string) *ast.FuncDecl {
@@ -265,6 +270,35 @@ func protocolFacts(c *factsCtx) (pf protoFacts) {
 			c.fail("protocol facts: flow.Start has no loop over the outgoing flows that calls handleSequenceFlow")
 		}
 		pf.FirstThatFlows = loops > 0 && good == loops
+	}
+	// --- pkg/id/sno.go: where a new generator's partition comes from
+	if f := c.parse("pkg/id/sno.go"); f == nil {
+		c.fail("protocol facts: pkg/id/sno.go not found")
+	} else {
+		picks, makes := false, false
+		ast.Inspect(f, func(n ast.Node) bool {
+			switch x := n.(type) {
+			case *ast.CompositeLit:
+				if x.Type != nil && strings.Contains(nodeText(c.fset, x.Type), "GeneratorSnapshot") {
+					picks = true
+				}
+			case *ast.AssignStmt:
+				for _, l := range x.Lhs {
+					if se, ok := l.(*ast.SelectorExpr); ok && se.Sel.Name == "Partition" {
+						picks = true
+					}
+				}
+			case *ast.CallExpr:
+				if strings.HasSuffix(nodeText(c.fset, x.Fun), "sno.NewGenerator") {
+					makes = true
+				}
+			}
+			return true
+		})
+		if !makes {
+			c.fail("protocol facts: pkg/id/sno.go does not call sno.NewGenerator")
+		}
+		pf.PartitionFromLib = makes && !picks
 	}
 	// --- gateway_event_based.go
 	if run := findMethod(c.parse("gateway_event_based.go"), "eventBasedGateway", "run"); run == nil {
@@ -865,8 +899,8 @@ func protocolFacts(c *factsCtx) (pf protoFacts) {
 func init() {
 	factGens = append(factGens, func(c *factsCtx) {
 		pf := protocolFacts(c)
-		fmt.Fprintf(&c.out, "(* protocol facts read off the sources (harness/protocol.go) *)\nDefinition src_active_before_arm : bool := %v.\nDefinition src_termchan_capacity : nat := %d.\nDefinition src_termchan_table_kept : bool := %v.\nDefinition src_determination_is_cas : bool := %v.\nDefinition src_subprocess_registers : bool := %v.\nDefinition src_determination_flag_per_activation : bool := %v.\nDefinition src_join_counter_bits : N := %d%%N.\nDefinition src_join_counter_resets : bool := %v.\nDefinition src_setvariable_replaces : bool := %v.\nDefinition src_token_counter_never_set_back : bool := %v.\nDefinition src_monitor_accumulator_is_local : bool := %v.\nDefinition src_probing_key_is_the_id : bool := %v.\nDefinition src_flows_in_reference_order : bool := %v.\nDefinition src_handler_read_only_on_error : bool := %v.\nDefinition src_unsubscribe_drains : bool := %v.\nDefinition src_answer_slice_is_fresh : bool := %v.\nDefinition src_wake_is_direct : bool := %v.\nDefinition src_push_waits_for_the_subscriber : bool := %v.\nDefinition src_subprocess_shares_the_locator : bool := %v.\nDefinition src_subprocess_forwards_directly : bool := %v.\nDefinition src_token_continues_on_the_first_flow_that_flows : bool := %v.\n\n",
-			pf.ActiveBeforeArm, pf.TermChanCapacity, pf.TermChanTableKept, pf.DeterminationIsCAS, pf.SubProcessRegisters, pf.FlagPerActivation, pf.JoinCounterBits, pf.JoinCounterResets, pf.SetVariableReplaces, pf.CounterNeverSetBack, pf.AccumulatorIsLocal, pf.ProbingKeyIsTheId, pf.FlowsInRefOrder, pf.HandlerOnlyOnError, pf.UnsubscribeDrains, pf.AnswerSliceIsFresh, pf.WakeIsDirect, pf.PushWaits, pf.SubSharesLocator, pf.SubForwardsDirectly, pf.FirstThatFlows)
+		fmt.Fprintf(&c.out, "(* protocol facts read off the sources (harness/protocol.go) *)\nDefinition src_active_before_arm : bool := %v.\nDefinition src_termchan_capacity : nat := %d.\nDefinition src_termchan_table_kept : bool := %v.\nDefinition src_determination_is_cas : bool := %v.\nDefinition src_subprocess_registers : bool := %v.\nDefinition src_determination_flag_per_activation : bool := %v.\nDefinition src_join_counter_bits : N := %d%%N.\nDefinition src_join_counter_resets : bool := %v.\nDefinition src_setvariable_replaces : bool := %v.\nDefinition src_token_counter_never_set_back : bool := %v.\nDefinition src_monitor_accumulator_is_local : bool := %v.\nDefinition src_probing_key_is_the_id : bool := %v.\nDefinition src_flows_in_reference_order : bool := %v.\nDefinition src_handler_read_only_on_error : bool := %v.\nDefinition src_unsubscribe_drains : bool := %v.\nDefinition src_answer_slice_is_fresh : bool := %v.\nDefinition src_wake_is_direct : bool := %v.\nDefinition src_push_waits_for_the_subscriber : bool := %v.\nDefinition src_subprocess_shares_the_locator : bool := %v.\nDefinition src_subprocess_forwards_directly : bool := %v.\nDefinition src_token_continues_on_the_first_flow_that_flows : bool := %v.\nDefinition src_partition_comes_from_the_library : bool := %v.\n\n",
+			pf.ActiveBeforeArm, pf.TermChanCapacity, pf.TermChanTableKept, pf.DeterminationIsCAS, pf.SubProcessRegisters, pf.FlagPerActivation, pf.JoinCounterBits, pf.JoinCounterResets, pf.SetVariableReplaces, pf.CounterNeverSetBack, pf.AccumulatorIsLocal, pf.ProbingKeyIsTheId, pf.FlowsInRefOrder, pf.HandlerOnlyOnError, pf.UnsubscribeDrains, pf.AnswerSliceIsFresh, pf.WakeIsDirect, pf.PushWaits, pf.SubSharesLocator, pf.SubForwardsDirectly, pf.FirstThatFlows, pf.PartitionFromLib)
 	})
 	commands["protocol"] = func(env *Env) {
 		c := &factsCtx{repo: env.Repo, fset: token.NewFileSet()}
